@@ -94,19 +94,26 @@ with ptrees_of (fuel : nat) (evs : list pevent) : option (list ptree * list peve
 Definition drop_ns (evs : list pevent) : list pevent :=
   filter (fun e => match e with PStartNs _ _ => false | _ => true end) evs.
 
-Definition attrs_read_b (eats : list (XmlNs.qname * list atom)) (attrs : list (qname * str)) : bool :=
+Definition attrs_read_b (ns : nsmap) (eats : list (XmlNs.qname * list atom)) (attrs : list (qname * str)) : bool :=
   nodup_by str_eqb (map fst attrs)
   && Nat.eqb (length attrs) (length eats)
-  && forallb (fun ea => match atoms_text (snd ea) with
-                        | Some v => existsb (fun kv => str_eqb (fst kv) (clark_of (fst ea)) && str_eqb (snd kv) v) attrs
-                        | None => false
-                        end) eats.
+  && forallb (fun ea =>
+                match snd ea with
+                | [AQName qa] =>
+                    existsb (fun kv => str_eqb (fst kv) (clark_of (fst ea))
+                                       && match resolve_qname ns (snd kv) with Some q' => qname_eqb q' qa | None => false end) attrs
+                | atoms =>
+                    match atoms_text atoms with
+                    | Some v => existsb (fun kv => str_eqb (fst kv) (clark_of (fst ea)) && str_eqb (snd kv) v) attrs
+                    | None => false
+                    end
+                end) eats.
 
 Fixpoint reads_t (e : XmlNs.enode) (t : ptree) {struct e} : bool :=
   match e, t with
   | EData _, _ => false
   | EElem q eats ekids, PT name attrs ns text tail kids =>
-      str_eqb (clark_of q) name && attrs_read_b eats attrs && blank_o tail
+      str_eqb (clark_of q) name && attrs_read_b ns eats attrs && blank_o tail
       && match ekids with
          | [] => match text, kids with None, [] => true | _, _ => false end
          | [EData [AQName qa]] =>
